@@ -2,6 +2,7 @@
 //! vharness <prop> replay <file>                                   — re-run the cases of a file, print lines
 mod common;
 mod c04;
+mod c07;
 mod c09;
 mod c10;
 mod jws;
@@ -35,6 +36,7 @@ fn props() -> Vec<Prop> {
     Prop { id: "C11", exec: c11::exec, classify: no_class, gen: c11::gen },
     Prop { id: "C12", exec: c12::exec, classify: no_class, gen: c12::gen },
     Prop { id: "C13", exec: c13::exec, classify: no_class, gen: c13::gen },
+    Prop { id: "C07", exec: c07::exec, classify: no_class, gen: c07::gen },
     Prop { id: "C14", exec: c14::exec, classify: no_class, gen: c14::gen },
     Prop { id: "C17", exec: c17::exec, classify: no_class, gen: c17::gen },
     Prop { id: "C18", exec: c18::exec, classify: no_class, gen: c18::gen },
